@@ -1,8 +1,7 @@
 /-
   Lemmas for C20 (model: `Model/Cache.lean`):
     (a) the inductive invariant of the plan cache under every interleaving;
-    (b) the reusable encoder: `Clear` re-establishes the fresh state (all back ends but XML after an aborted
-        call), the version cell is what leaks without `Clear`.
+    (b) the reusable encoder: see `Lemmas/CacheReuseLemmas.lean`.
 -/
 import KmipModel.Model.Cache
 namespace Kmip.Cache
@@ -290,111 +289,5 @@ end cache
 
 theorem getD_default_of_le {α : Type} (l : List α) (i : Nat) (d : α) (h : l.length ≤ i) : l.getD i d = d := by
   rw [List.getD_eq_getElem?_getD, List.getElem?_eq_none h]; rfl
-
-/-! ## (b) the reusable encoder -/
-
-theorem runOpsWith_append (clr : Encoder → Encoder × Bool) (S : Schema) :
-    ∀ (h1 h2 : List Op) (st : Encoder),
-      runOpsWith clr S st (h1 ++ h2) =
-        ((runOpsWith clr S (runOpsWith clr S st h1).1 h2).1,
-         (runOpsWith clr S st h1).2 ++ (runOpsWith clr S (runOpsWith clr S st h1).1 h2).2) := by
-  intro h1
-  induction h1 with
-  | nil => intro h2 st; rfl
-  | cons op ops ih =>
-    intro h2 st
-    simp only [List.cons_append, runOpsWith, ih, List.cons_append]
-
-/-- the general form of `encoder_reuse`, for any implementation of `Clear`: once `Clear` has returned normally
-    with a fresh writer, the rest of the history runs exactly as on a new encoder, whatever came before. -/
-theorem reuse_gen (clr : Encoder → Encoder × Bool) (S : Schema) (st0 : Encoder) (h ops : List Op)
-    (hclr : clr (runOpsWith clr S st0 h).1 = (fresh, true)) :
-    runOpsWith clr S st0 (h ++ .clear :: ops) =
-      ((runOpsWith clr S fresh ops).1,
-       (runOpsWith clr S st0 h).2 ++ true :: (runOpsWith clr S fresh ops).2) := by
-  rw [runOpsWith_append]
-  simp only [runOpsWith, stepOpWith, hclr]
-
-/-- every back end of the library (since 55f108f): `Clear` always yields the state of a new encoder. -/
-theorem clearOp_fresh (b : Backend) (st : Encoder) : clearOp b st = (fresh, true) := rfl
-
-/-- OLD xmlWriter.Clear succeeded (and yielded a fresh writer) unless elements were left open by an aborted
-    call on an encoder that had not been closed yet. -/
-theorem oldXmlClearOp_ok {st : Encoder} (h : st.closed = true ∨ st.opened = 0) :
-    oldXmlClearOp st = (fresh, true) := by
-  unfold oldXmlClearOp
-  rcases h with h | h
-  · simp [h]
-  · simp [h]
-
-/-- after ANY `Clear` (even the old XML one that panicked) the version cell is empty. -/
-theorem clearOp_cell (b : Backend) (st : Encoder) : (clearOp b st).1.cell = none := rfl
-
-theorem oldXmlClearOp_cell (st : Encoder) : (oldXmlClearOp st).1.cell = none := by
-  unfold oldXmlClearOp
-  split
-  · rfl
-  · split <;> rfl
-
-/-- no aborted call of the history left a structure open. -/
-def NoOpenJunk (h : List Op) : Prop :=
-  ∀ op ∈ h, match op with
-    | .encode _ j => j.opened = 0
-    | _ => True
-
-theorem stepOpOld_clean (S : Schema) (st : Encoder) (op : Op)
-    (hst : st.opened = 0 ∧ st.closed = false)
-    (hop : match op with | .encode _ j => j.opened = 0 | _ => True) :
-    (stepOpWith oldXmlClearOp S st op).1.opened = 0 ∧ (stepOpWith oldXmlClearOp S st op).1.closed = false := by
-  cases op with
-  | bytes => exact hst
-  | clear =>
-    simp only [stepOpWith, oldXmlClearOp_ok (Or.inr hst.1)]; exact ⟨rfl, rfl⟩
-  | encode m j =>
-    simp only [stepOpWith, encodeOp, hst.2, Bool.false_eq_true, if_false]
-    split
-    · exact ⟨hst.1, rfl⟩
-    · have hop' : j.opened = 0 := hop
-      exact ⟨by show st.opened + j.opened = 0; rw [hst.1, hop'], rfl⟩
-
-theorem runOpsOld_clean (S : Schema) :
-    ∀ (h : List Op) (st : Encoder), st.opened = 0 ∧ st.closed = false → NoOpenJunk h →
-      (runOpsWith oldXmlClearOp S st h).1.opened = 0 ∧ (runOpsWith oldXmlClearOp S st h).1.closed = false := by
-  intro h
-  induction h with
-  | nil => intro st hst _; exact hst
-  | cons op ops ih =>
-    intro st hst hj
-    simp only [runOpsWith]
-    exact ih _ (stepOpOld_clean S st op hst (hj op List.mem_cons_self))
-      (fun o ho => hj o (List.mem_cons_of_mem _ ho))
-
-/-- the link with `marshal` (Model/Plan.lean): `MarshalTTLV` is `encode` on a fresh encoder, then `Bytes`. -/
-theorem marshal_eq_encodeFrom (S : Schema) (d tag : Nat) (v : Val) :
-    marshal S d tag v =
-      (match encodeFrom S ⟨d, tag, v⟩ none with
-       | .ok (items, _) => .ok (encList items)
-       | .err e => .err e
-       | .panic msg => .panic msg) := by
-  unfold marshal encodeFrom encFuel
-  dsimp only
-  cases encK S 100000 (S.dyn d).kind (if tag = 0 then (S.dyn d).defTag else tag) v none with
-  | ok a => obtain ⟨items, c⟩ := a; rfl
-  | err e => rfl
-  | panic m => rfl
-
-theorem fresh_encode_bytes (S : Schema) (b : Backend) (m : Msg) (j : Junk) (bs : Bytes)
-    (h : marshal S m.d m.tag m.v = .ok bs) :
-    (runOps S b fresh [.encode m j]).1.bytes = bs ∧ (runOps S b fresh [.encode m j]).2 = [true] := by
-  rw [marshal_eq_encodeFrom] at h
-  simp only [runOps, runOpsWith, stepOpWith, encodeOp, fresh, Bool.false_eq_true, if_false]
-  cases he : encodeFrom S ⟨m.d, m.tag, m.v⟩ none with
-  | ok a =>
-    obtain ⟨items, c⟩ := a
-    rw [he] at h
-    have : encList items = bs := by cases h; rfl
-    exact ⟨by simp [Encoder.bytes, this], rfl⟩
-  | err e => rw [he] at h; exact nomatch h
-  | panic msg => rw [he] at h; exact nomatch h
 
 end Kmip.Cache
